@@ -60,4 +60,6 @@ var props = map[string]propMeta{
 		Assumptions: append([]string{"'other versions' is represented by exactly one other build: the pinned release e481c06, whose output is committed under /verif/golden"}, commonAssumptions...)},
 	"C14": {Level: "exploration", Rule: "case k: 2-4 objects whose shapes are drawn recursively from the supported kinds (nil/empty/non-empty slices and maps, slices of pointers inside maps, pointer chains, arrays of pointers and of slices, interfaces holding containers, nested structs, time) are stored (single or batch) under cache/async on and off; every mutable location reachable from the caller's object is then scrambled and a read through Get/GetByUUID/All/AssignAll/Search.Collect must equal the snapshot taken at insert time and share no address (pointer targets, slice arrays, maps) with it; the returned object is scrambled and a second read checked the same way; the cached read must equal the decoded file. Non-trivial: >= 1 object with reachable containers; distinct = fingerprint of configuration + shapes",
 		Assumptions: append([]string{"exported fields only (the clone's documented exception for unexported pointers is outside the supported kinds); time.Time's shared *Location is not an alias"}, commonAssumptions...), Race: "thorough"},
+	"C19": {Level: "exploration", Rule: "argument cases: on empty and non-empty collections a PRNG slice (6%) of the cross product 29 fields (known indexed/unindexed, nested, promoted, empty, unknown, struct-, pointer-, slice-, map-, interface-valued, below-a-scalar, malformed paths) x 13 operators (7 valid, empty, <>, ==, ...) x 26 probe kinds (every Go scalar kind, nil, struct, slice, pointer, map, bad pattern) through Search, And, Or and Operation: no panic, no hang, and a search that reports no error may only return objects satisfying the predicate under the model (none when it cannot be evaluated). File cases: a valid closed directory of a drawn configuration gets 1-2 mutations (byte level on schema.json / object files: truncations, bit flips, NUL runs, garbage; JSON-aware on schema.json: drop/rename/replace nodes, array surgery, bad tuples, ids, casts, durations, object-ids, unsorted index; ill-shaped object JSON, gzip damage; stray entries: no dot, sub-directory, foreign extension, upper-case uuid, dangling symlink, directory named like an object), then ~70 API calls (every method of DB and Search) run on a fresh handle under recover and a CPU-time hang guard. Non-trivial: every case; distinct = fingerprint of configuration + content + mutation classes",
+		Assumptions: append([]string{"a hang is decided by CPU time of the call (20 s on a <= 8 object database), never by wall-clock time; a call blocked without CPU is inconclusive"}, commonAssumptions...)},
 }
